@@ -731,9 +731,8 @@ func checkLeaseTestNamesJudgedOutput(c *Ctx, rule string) {
 			if os.Getenv("VERIF_DEBUG") != "" {
 				fmt.Println("DEBUG lease-test", fn.Name(), call.Pos(), idx, al)
 			}
-			if idx == nil {
-				continue
-			}
+			// no Index given inside this loop: the outpoint was built outside the per-output loop and names output 0 (or
+			// whatever an outer iteration left) for every output judged here — compared below like any other index
 			// sibling per-output index arguments in the same loop body
 			for b := range l.Blocks {
 				for _, ins := range b.Instrs {
@@ -753,7 +752,7 @@ func checkLeaseTestNamesJudgedOutput(c *Ctx, rule string) {
 							continue
 						}
 						n++
-						c.Check(rule, "lease-test-names-the-judged-output:"+fn.Name()+"/"+g.Name(), sib.Pos(), stripConv(sib.Call.Args[i]) == idx,
+						c.Check(rule, "lease-test-names-the-judged-output:"+fn.Name()+"/"+g.Name(), sib.Pos(), idx != nil && stripConv(sib.Call.Args[i]) == idx,
 							fnName(fn)+" asks the lease of one output index and looks another one up with "+g.Name()+" in the same iteration: a leased output is taken off the balance a second time, or its unleased under-confirmed siblings are not taken off at all")
 					}
 				}
